@@ -354,6 +354,9 @@ class Loader:
         if key in self.externals:
             return self.externals[key]
         from .values import Opaque
+        if (mod, attr) in (("_weakref", "ref"), ("weakref", "ref")):
+            from .builtins_ import BUILTINS
+            return BUILTINS["weakref.ref"]
         if (mod, attr) == ("types", "NoneType"):
             v = self.ext_class("NoneType", type(None))
             self.externals[key] = v
